@@ -1,7 +1,8 @@
 CONSTANT MaxDepth = 2
-CONSTANT SampleFrom = 1
-CONSTANT SampleMod = 8
-CONSTANT SamplePick = 0
+CONSTANT Mod1 = 12
+CONSTANT Pick1 = 0
+CONSTANT Mod2 = 1000
+CONSTANT Pick2 = 0
 CONSTANT ExportMod = 16
 SPECIFICATION Spec
 INVARIANT BuildAgrees
